@@ -4,7 +4,7 @@ import random
 
 from . import common, mergecommon
 
-LEVEL = 'exploration'
+LEVEL = 'other'
 
 
 def _side_job(job):
@@ -47,7 +47,30 @@ def replay_side(where):
     return [o for o in out if o[2]['triple'] == where['triple']]
 
 
+def order_part(res):
+    from contracts import kit_e
+    sites = kit_e.c09_order_obligations(common.REPO)
+    if not sites:
+        raise common.CheckerDefect('no ordering obligations generated')
+    unrecognised = [t for t, ok, kind in sites if not ok and kind == 'shape']
+    if unrecognised:
+        res.functions['nbdime.merging.decisions._sort_key / MergeDecisionBuilder.validated'] = 'out-of-subset'
+        res.notes.append('ordering clause: code not in the recognised form (%s) -- no structural statement for this run, the bounded ordering oracle decides'
+                         % '; '.join(unrecognised))
+        return
+    res.obligations += len(sites)
+    bad = [t for t, ok, kind in sites if not ok]
+    res.discharged += len(sites) - len(bad)
+    res.backends['structure scan(syntactic)'] = len(sites) - len(bad)
+    res.functions['nbdime.merging.decisions._sort_key / MergeDecisionBuilder.validated'] = 'proved' if not bad else 'failed'
+    for t in bad[:3]:
+        res.violation('ordering obligation fails: %s' % t, {'obligation': 'decision ordering', 'kind': 'failed-structure-obligation', 'text': t}, no_input=True)
+    res.assumptions.append('ordering clause: Python compares lists lexicographically with a proper prefix smaller, tuples likewise; sorted(reverse=True) '
+                           'returns the items in non-increasing key order (language semantics, assumed)')
+
+
 def run(res):
+    order_part(res)
     mergecommon.run_merge_cases(res, {'C03', 'C09'}, 'C09', {}, quick=(48, 60, 14), thorough=(128, 100, 282))
     nseeds, ntriples = (48, 80) if res.tier == 'quick' else (128, 200)
     seen = set()
